@@ -740,11 +740,12 @@ XmProgs ==
       A0 == Itg(2, <<1>>, Emp, 1, F_(2))                                       \* g ds(1; m1)
       B  == ItgX(2, <<1>>, Emp, 1, F_(1), << <<3, 2>>, <<2, 3>> >>)           \* & dS(m2) & ds(m3)
       Cc == ItgX(1, <<0>>, Emp, 1, B_("prod", F_(2), A_(0, 1)), << <<1, 2>> >>) \* dx(m1) & dx(m2)
-      Gg == ItgX(2, <<0>>, Emp, 1, B_("prod", vol(2), vol(3)), << <<3, 2>> >>) \* both other meshes in the integrand
+      Gg == ItgX(2, <<0>>, Emp, 1, B_("div", vol(2), vol(3)), << <<3, 2>> >>)  \* both other meshes in the integrand (not in
+                                                                               \* a product: its operands are sorted by raw mesh id)
       R(d) == Itg(1, <<0>>, Emp, d, vol(d))
-  IN {P3(<<A>>), P3(<<Cc>>), P3(<<Gg>>), P3(<<A, R(2), R(3)>>), P3(<<A, A3>>), P3(<<A0, A>>)}
+  IN {P3(<<A>>), P3(<<B>>), P3(<<Cc>>), P3(<<Gg>>), P3(<<A, R(2), R(3)>>), P3(<<A, A3>>), P3(<<A0, A>>)}
      \cup (IF Lvl = 1 THEN {} ELSE
-          {P3(<<B>>), P3(<<A, R(2)>>), P3(<<B, R(3)>>), P3(<<Cc, R(3), R(2)>>), P3(<<A3, A, A0>>),
+          {P3(<<A, R(2)>>), P3(<<B, R(3)>>), P3(<<Cc, R(3), R(2)>>), P3(<<A3, A, A0>>),
            P3(<<ItgX(3, <<0>>, Emp, 2, B_("prod", N("res", <<1>>, <<F_(8)>>), N("res", <<2>>, <<F_(8)>>)), << <<2, 1>> >>), R(3)>>),
            P3(<<ItgX(1, <<1, 2>>, N("dict", <<1>>, <<MI(2)>>), 1, F_(1), << <<1, 3>>, <<1, 2>> >>)>>)})
 
